@@ -75,6 +75,7 @@ pub fn convert<'gc, 'r>(env: &mut Env<'gc, 'r>, ex: &mut Exec, target: Sel, chai
                     Ref::Dyn(g) => Ref::Dyn(Gc::from_ptr(Gc::as_ptr(g))),
                     Ref::Arr(g) => Ref::Arr(Gc::from_ptr(Gc::as_ptr(g))),
                     Ref::P(g) => Ref::P(Gc::from_ptr(Gc::as_ptr(g))),
+                    Ref::DB(g) => Ref::DB(Gc::from_ptr(Gc::as_ptr(g))),
                     Ref::Set(..) => r,
                 }
             };
